@@ -210,17 +210,17 @@ func genRecover(repo string) (string, error) {
 	if err != nil {
 		return "", fmt.Errorf("%s: loop init: %v", site, err)
 	}
-	cond, ok := loop.Cond.(*ast.BinaryExpr)
+	lcond, ok := loop.Cond.(*ast.BinaryExpr)
 	if !ok {
 		return "", fmt.Errorf("%s: loop condition `%s` is not a comparison", site, exprString(fset, loop.Cond))
 	}
 	var bound ast.Expr
 	inclusive := false
 	switch {
-	case isVar(recoverStripParens(cond.X)) && (cond.Op == token.LSS || cond.Op == token.LEQ):
-		bound, inclusive = cond.Y, cond.Op == token.LEQ
-	case isVar(recoverStripParens(cond.Y)) && (cond.Op == token.GTR || cond.Op == token.GEQ):
-		bound, inclusive = cond.X, cond.Op == token.GEQ
+	case isVar(recoverStripParens(lcond.X)) && (lcond.Op == token.LSS || lcond.Op == token.LEQ):
+		bound, inclusive = lcond.Y, lcond.Op == token.LEQ
+	case isVar(recoverStripParens(lcond.Y)) && (lcond.Op == token.GTR || lcond.Op == token.GEQ):
+		bound, inclusive = lcond.X, lcond.Op == token.GEQ
 	default:
 		return "", fmt.Errorf("%s: loop condition `%s` is not `%s < / <= <expr>` (or mirrored)", site, exprString(fset, loop.Cond), ivar.Name)
 	}
@@ -315,6 +315,56 @@ func genRecover(repo string) (string, error) {
 	for _, c := range recLetters {
 		recCommits = append(recCommits, recoverStoreNo[string(c)])
 	}
+	// every iteration reaches every effect: the statements that carry the effects (role calls and calls of the helpers
+	// they were extracted into) may be guarded by nothing but the absence of an earlier error (`if err != nil { return }`);
+	// a `continue` / conditional skip in front of them (e.g. "skip empty blocks") makes the fact false
+	unconditional, skipNote := true, ""
+	isErrGuard := func(c cond) bool {
+		be, ok := stripParens(c.e).(*ast.BinaryExpr)
+		if !ok {
+			return false
+		}
+		_, lhsIdent := stripParens(be.X).(*ast.Ident)
+		nilRhs := flat(fset, be.Y) == "nil"
+		return lhsIdent && nilRhs && ((be.Op == token.NEQ && !c.pos) || (be.Op == token.EQL && c.pos))
+	}
+	checked := map[*ast.FuncDecl]bool{}
+	checkBody := func(fd *ast.FuncDecl, list []ast.Stmt) {
+		guardsOf(list, nil, func(st ast.Stmt, guards []cond) {
+			carries := false
+			ast.Inspect(st, func(n ast.Node) bool {
+				if ce, ok := n.(*ast.CallExpr); ok {
+					role, helper := ledgersrc.Classify(fd, ce)
+					if role != "" || (helper != "" && helper[0] >= 'a' && helper[0] <= 'z' && p.Funcs[ledgersrc.RecvType(fd)+"."+helper] != nil) {
+						carries = true
+					}
+				}
+				return true
+			})
+			if !carries {
+				return
+			}
+			for _, g := range guards {
+				if !isErrGuard(g) && unconditional {
+					unconditional = false
+					neg := ""
+					if !g.pos {
+						neg = "not "
+					}
+					skipNote = fmt.Sprintf("in %s, `%s` runs only when %s(%s)", fd.Name.Name, flat(fset, st), neg, flat(fset, g.e))
+				}
+			}
+		})
+	}
+	checkBody(fn, loop.Body.List)
+	checked[fn] = true
+	for _, e := range ev {
+		if !checked[e.In] {
+			checked[e.In] = true
+			checkBody(e.In, e.In.Body.List)
+		}
+	}
+
 	// which block an iteration executes
 	gbh := ev[idx["blockStore.GetBlockHash"]]
 	if len(gbh.Call.Args) != 1 {
@@ -387,6 +437,11 @@ func genRecover(repo string) (string, error) {
 	fmt.Fprintf(&out, "/-- see `loopLo` -/\ndef loopHi : Nat := %d\n", hi)
 	fmt.Fprintf(&out, "/-- see `loopLo` -/\ndef blockArg : Nat := %d\n\n", arg)
 	fmt.Fprintf(&out, "/-- %s — stores committed by one iteration of the replay loop, in source order -/\ndef recoverCommits : List Nat := %s\n\n", site, natList(recCommits))
+	note := "every effect of an iteration is guarded only by the absence of an earlier error"
+	if !unconditional {
+		note = "CONDITIONAL: " + skipNote
+	}
+	fmt.Fprintf(&out, "/-- %s — one iteration of the replay loop reaches all its effects whatever the block contains: %s -/\ndef replayUnconditional : Bool := %v\n\n", site, strings.ReplaceAll(note, "-/", "- /"), unconditional)
 	fmt.Fprintf(&out, "/-- %s — order of the three `CommitTo` calls -/\ndef commitOrder : List Nat := %s\n\n", site2, natList(order))
 	fmt.Fprintf(&out, "/-- %s — `saveBlockToStateStore` (which appends and syncs the merkle hash file through `AddBlockMerkleTreeRoot`) is called before every `CommitTo` -/\ndef fileAppendFirst : Bool := %v\n\n", site2, fileFirst)
 	out.WriteString("end OntVerif.Gen.Recover\n")
